@@ -108,7 +108,7 @@ let () =
         let l0 = match ls with l :: _ -> l | [] -> [] in
         let bats = let s = String.sub bf 2 (String.length bf - 2) in if s = "none" then [] else String.split_on_char ';' s in
         let (rerrs, warm) = (match String.split_on_char ',' (String.sub nf 2 (String.length nf - 2)) with
-          | [_; e; x] -> (int_of_string e, x = "1") | [_; e] -> (int_of_string e, false) | _ -> (0, false)) in
+          | [_; e; x; _] | [_; e; x] -> (int_of_string e, x = "1") | [_; e] -> (int_of_string e, false) | _ -> (0, false)) in
         let st = get_st cf in
         let set s = Hashtbl.replace stores cf s in
         let arg i = List.nth args i in
